@@ -115,6 +115,11 @@ def main():
               "params": c01.row_params(n["net"])} for i, n in enumerate(nets3)]
     tcases = [c for c in core.pmap(pf.run_case_prune, tjobs, chunksize=16) if "skip" not in c]
     cases = cases + tcases
+    suite_cov = {}
+    if tr == "thorough":          # every pipeflow call of the repository's own test-suite, judged by the same clauses
+        from . import suite
+        scases, suite_cov = suite.pf_cases(["C04"])
+        cases = cases + scases
     by_id = {c["id"]: c for c in cases}
     # 3. code -> spec: TLC decides every clause on every recorded case
     res, fails = validate(cases)
@@ -124,7 +129,7 @@ def main():
         for cl in f["clauses"]:
             clause_count[cl[0]] += 1
             V.report(cl[0], cl[1], by_id[f["id"]], text="detail=%s case=%s" % (cl[2:], f["id"]))
-    outcomes = collections.Counter(c["oclass"] for c in cases)
+    outcomes = collections.Counter(c.get("oclass", c["outcome"]) for c in cases)
     nontriv = sum(1 for c in cases if c["outcome"] == "returned"
                   and any(j["p"][0] != 0 for j in c["net"]["J"]) and any(j["p"][0] == 0 for j in c["net"]["J"]))
     samples = [{"net": c["net"], "outcome": c["outcome"]} for c in cases[:1]] + \
@@ -140,7 +145,7 @@ def main():
            "partly_supplied_returned_cases": nontriv,
            "pruned_pairs": sum(1 for c in cases if "pnet" in c),
            "thermal_pattern_cases": len(tcases), "thermal_pattern_returned": sum(1 for c in tcases if c["outcome"] == "returned"),
-           "failing_clause_counts": dict(clause_count),
+           "failing_clause_counts": dict(clause_count), "repository_suite": suite_cov,
            "evaluations": len(cases), "distinct_nontrivial": nontriv,
            "rule": "distinct abstract nets emitted by TLC (exhaustive small config + seeded simulation of a larger "
                    "config); non-trivial = returned run with both supplied and unsupplied junctions"}
